@@ -9,6 +9,8 @@ some order consistent with each thread's program order.
 """
 from __future__ import annotations
 
+import contextlib
+import io
 import itertools
 
 from mc import common, sched
@@ -42,10 +44,19 @@ H = {
     "S10-self-transfer-and-regen": ({"A": (3, 0, 0, 0)}, [[("transfer", "A", "A", 2, "ATP")],
                                                          [("consume", "A", 3, "ATP", False), ("regenerate", "A", 1, "ATP")]]),
     "S11-dormancy-toggle": ({"A": (4, 0, 0, 0)}, [[("dormant_in", "A"), ("dormant_out", "A")], [("consume", "A", 2, "ATP", False)]]),
+    # two real agents sharing one store, as a quorum / guard loop does (only metabolism.py lines are scheduling points)
+    "S13-two-agents-express": ({"A": (10, 0, 0, 0)}, [[("express", "A", "Voter")], [("express", "A", "Executor")]]),
+    "S14-three-agents-express": ({"A": (25, 0, 0, 0)}, [[("express", "A", "Voter")], [("express", "A", "Voter")],
+                                                       [("express", "A", "RiskAssessor")]]),
     "S12-reset-vs-consume": ({"A": (3, 0, 0, 0)}, [[("consume", "A", 2, "ATP", False), ("reset", "A")], [("consume", "A", 2, "ATP", False)]]),
 }
 QUICK = ["S1-consume-consume", "S2-consume-regenerate", "S3-topup-convert", "S4-debt-debt", "S5-opposite-transfers",
-         "S6-transfer-consume", "S7-three-threads", "S8-transfer-vs-two-consumes"]
+         "S6-transfer-consume", "S7-three-threads", "S8-transfer-vs-two-consumes", "S13-two-agents-express"]
+
+
+class _Null(io.TextIOBase):
+    def write(self, s):
+        return len(s)
 
 
 def mk_stores(cfgs):
@@ -73,6 +84,11 @@ def apply(stores, op):
         return s.exit_dormancy()
     if k == "reset":
         return s.reset()
+    if k == "express":
+        from operon_ai.core.agent import BioAgent
+        from operon_ai.core.types import Signal
+        agent = BioAgent(name=f"agent-{op[2]}", role=op[2], atp_store=s)
+        return agent.express(Signal(content="summarise the report")).action_type
     raise AssertionError(op)
 
 
@@ -160,8 +176,9 @@ def make_factory(name):
 
 def judge_factory(name):
     cfgs, threads = H[name]
-    strict = sequential_outcomes(cfgs, threads, split=False)
-    split = sequential_outcomes(cfgs, threads, split=True)
+    with contextlib.redirect_stdout(_Null()):
+        strict = sequential_outcomes(cfgs, threads, split=False)
+        split = sequential_outcomes(cfgs, threads, split=True)
 
     def judge(ex, outcome):
         v = []
@@ -197,7 +214,8 @@ def run_harness(name, bound, opcodes=False, nproc=None):
         f = getattr(make, "invariant", None)
         return f() if f else None
 
-    res = sched.explore(make, bound, judge, nproc=nproc, trace_files=TRACE, opcodes=opcodes, invariant=None)
+    with contextlib.redirect_stdout(_Null()):  # BioAgent.express prints; one process-wide redirect, not per thread
+        res = sched.explore(make, bound, judge, nproc=nproc, trace_files=TRACE, opcodes=opcodes, invariant=None)
     res["strict"] = len(strict)
     res["split"] = len(split)
     return res
